@@ -20,6 +20,8 @@ CLAIMED = {
             "N<=2 values (quick) / N<=3, M=2 bins; QF_NRA degree<=3", "DESIGN.md 5/C14"),
     "C16": ("Bounded symbolic model checking of densities, bin_sizes, total_width/total_size, left/right/centre/width properties (per-axis and mesh forms), cumulative_frequencies, and bin_sizes of the seven transformed classes: for all symbolic irregular edges and contents densities*bin_sizes = frequencies, bin_sizes equals the statement's measure formula (cos uninterpreted with sound axioms), measures are additive under merging of adjacent bins and sum to the measure of the covered region for full angular ranges.",
             "M<=3 bins 1D, shapes 2x2 / 2x1x2 (quick) + 3x2 / 2x2x2 (thorough), <=2 bins per axis for transformed classes; QF_NRA + UF", "DESIGN.md 5/C16"),
+    "C11": ("Bounded symbolic model checking of Histogram1D.__getitem__/select and HistogramND.__getitem__/select with symbolic indices (ints, slice bounds, boolean mask entries, index array entries are symbolic and forked over their range): the result's bins/contents/errors2 are the Python/numpy-indexed lists of the symbolic originals, ints drop their axis and name, contiguous 1D slices conserve total+underflow+overflow, non-contiguous selections report NaN, refusals (reversed, wrong mask size, too many / out-of-range indices), source untouched.",
+            "1D M=3 (thorough: also M=2,4), 2D 2x3, 3D 2x2x2; explicit positive step and unsorted index arrays are accepted as either refused or well-formed (stated leniency)", "DESIGN.md 5/C11"),
 }
 
 REASONS_NOT_YET = "check not built yet (work in progress; see DESIGN.md section 8 build order)"
